@@ -335,26 +335,35 @@ theorem C15_shallow_copy_shares_data :
 
 /-! ### Transforms: which accessors are pure depends on where `params` lives -/
 
-/-- the full statement: every with-argument accessor leaves the receiver alone, for every kind -/
-def C15_transform_accessors_Statement : Prop := ∀ (isParam svf : Bool) (a : TAcc), canonPure isParam svf a = true
+/-- the full statement: every with-argument accessor leaves the receiver alone — for every parameter kind and
+    class of leaf transform, and for composite transforms (`condition(x)`, `grid(g)`) -/
+def C15_transform_accessors_Statement : Prop :=
+  (∀ (isParam svf : Bool) (a : TAcc), canonPure isParam svf a = true) ∧
+  canonCompositePure false = true ∧ canonCompositePure true = true
 
-/-- **What holds** (code as of commit 3110eb9, where `__copy__` also copies the `_parameters` container):
-    for a transform without shared child state every with-argument accessor — `condition`, `grid`,
-    `data`, `unlink`, `inverse`, `matrix` — is pure, whether `params` is an `nn.Parameter` or a buffer;
-    for the stationary-velocity class (an `exp` child module) all of them except `grid` are.
-    Missing for the full statement: `grid` of the stationary-velocity class (refuted below). -/
+/-- **What holds** (code with `__copy__` copying the `_parameters` container, 3110eb9, and the repaired
+    `StationaryVelocityFieldTransform.grid_`, F-15e): for a leaf transform every with-argument accessor — `condition`,
+    `grid`, `data`, `unlink`, `inverse`, `matrix` — leaves every node of the receiver's graph as it was, whether
+    `params` is an `nn.Parameter` or a buffer, with or without an `exp` child module (for the stationary-velocity
+    class `grid(g)` with another `align_corners` flag rebinds a *copy* of `exp`; the shared child, node 15, is untouched).
+    Missing for the full statement: composite transforms, whose shallow copies share the child transforms (below). -/
 theorem C15_transform_accessors_partial :
-    (∀ (isParam : Bool) (a : TAcc), canonPure isParam false a = true) ∧
-    (∀ (isParam : Bool) (a : TAcc), a ≠ .grid → canonPure isParam true a = true) := by
-  constructor
-  · intro isParam a; cases isParam <;> cases a <;> decide
-  · intro isParam a ha; cases isParam <;> cases a <;> first | exact absurd rfl ha | decide
+    ∀ (isParam svf : Bool) (a : TAcc), canonPure isParam svf a = true := by
+  intro isParam svf a; cases isParam <;> cases svf <;> cases a <;> decide
 
-/-- **Refuted**: the full statement fails — witness: `grid(g)` of the stationary-velocity class with
-    buffer-held parameters (F-15e). -/
+/-- the stationary-velocity `grid(g)` really takes the copy-the-child path on the canonical graph: the result's
+    `exp` is a new node carrying the new flag, the original's is node 15 with the old one -/
+example :
+    let st := canonRun false true .grid
+    st.halted = false ∧ deref st (deref st (st.regs 10) kModules) kExp ≠ 15 ∧
+    lookupEntry (st.heap.node (deref st (deref st (st.regs 10) kModules) kExp)).entries kAlignCorners = some (.imm 2) ∧
+    lookupEntry (st.heap.node 15).entries kAlignCorners = some (.imm 1) := by decide
+
+/-- **Refuted**: the full statement fails for composite transforms (F-15f): `CompositeTransform.condition(x)`
+    conditions the child transforms, which the shallow copy shares with the original. -/
 theorem C15_transform_accessors_refuted : ¬ C15_transform_accessors_Statement := by
   intro h
-  have := h false true .grid
+  have := h.2.1
   revert this
   decide
 
@@ -367,11 +376,11 @@ theorem C15_transform_shared_parameters_refuted :
     (List.range 16).all (fun n => (canonRunDataOld false).heap.node n == (canonTransformHeap false false).node n) = true := by
   decide
 
-/-- **Refuted**: `StationaryVelocityFieldTransform.grid(g)` writes `align_corners` of the `exp` child
-    module, which the shallow copy shares with the original (node 15) — even when `params` is a buffer. -/
+/-- **Refuted** (F-15f, F-15g): on the canonical composite, `condition(x)` rewrites the shared child (node 18:
+    `_args`, `_kwargs`) and clears its buffered `u` (nodes 20, 22); `grid(g)` with another grid clears the child's
+    buffers (nodes 20, 22) — nothing else changes. -/
 theorem C15_transform_shared_child_refuted :
-    canonPure false true .grid = false ∧
-    (canonRun false true .grid).heap.node 15 ≠ (canonTransformHeap false true).node 15 := by
+    canonCompositeChanged false = [18, 20, 22] ∧ canonCompositeChanged true = [20, 22] := by
   decide
 
 end Deepali
